@@ -175,7 +175,7 @@ func checkNothingInvented(cache *flowCache, probes []savedProbe, mustHave bool) 
 // ---------------------------------------------------------------- corruptions
 
 var structKinds = []string{"drop-shard", "null-shard", "null-templates", "wrong-templates", "extra-shards", "shardno", "cache-wrong", "remove-entry",
-	"entry-garbage", "doc-wrong", "dup-key", "deep", "template-wrong-types", "empty-cache-array"}
+	"entry-garbage", "doc-wrong", "dup-key", "deep", "template-wrong-types", "empty-cache-array", "count-mismatch", "specifier-tweak"}
 
 var removalOnly = map[string]bool{"drop-shard": true, "null-shard": true, "null-templates": true, "remove-entry": true, "empty-cache-array": true}
 
@@ -321,6 +321,48 @@ func applyMut(file []byte, m c11Mut) []byte {
 		if _, tm := fullShard(); tm != nil {
 			for k := range tm {
 				tm[k] = map[string]interface{}{"Template": map[string]interface{}{"TemplateID": "x", "FieldSpecifiers": 7, "FieldCount": []interface{}{}}, "Timestamp": "now"}
+				break
+			}
+		}
+	case "count-mismatch":
+		// a redundant number of a saved template no longer agrees with its specifier lists (a hand edit, one digit)
+		if _, tm := fullShard(); tm != nil {
+			for _, ent := range tm {
+				if e, ok := ent.(map[string]interface{}); ok {
+					if tpl, ok := e["Template"].(map[string]interface{}); ok {
+						key := []string{"FieldCount", "ScopeFieldCount", "FieldCount"}[m.A%3]
+						tpl[key] = []interface{}{0, 1, 2, 5, 255, 65535, 3}[m.B%7]
+					}
+				}
+				break
+			}
+		}
+	case "specifier-tweak":
+		// one field specifier of a saved template is altered (length 0 / 65535 / huge, element id, enterprise number)
+		if _, tm := fullShard(); tm != nil {
+			for _, ent := range tm {
+				if e, ok := ent.(map[string]interface{}); ok {
+					if tpl, ok := e["Template"].(map[string]interface{}); ok {
+						for _, listKey := range []string{"FieldSpecifiers", "ScopeFieldSpecifiers"} {
+							if l, ok := tpl[listKey].([]interface{}); ok && len(l) > 0 {
+								if f, ok := l[m.A%len(l)].(map[string]interface{}); ok {
+									switch m.B % 4 {
+									case 0:
+										f["Length"] = []interface{}{0, 65535, 65534, 1}[m.A%4]
+									case 1:
+										f["ElementID"] = []interface{}{0, 65535, 999}[m.A%3]
+									case 2:
+										f["EnterpriseNo"] = 4294967295
+									default:
+										l = append(l, f)
+										tpl[listKey] = l
+									}
+								}
+								break
+							}
+						}
+					}
+				}
 				break
 			}
 		}
@@ -588,6 +630,17 @@ func runC11(c *c11Case) (v verdict, sig string, err error) {
 		}
 		if e := usable(lc); e != nil {
 			return v, "unusable", fmt.Errorf("corruption %s(%d,%d,%s): %v", m.Kind, m.A, m.B, m.V, e)
+		}
+		// whatever the loader made of the file, data for the exporters it knew must still be handled (decoded,
+		// reported or dropped) without taking the worker down
+		for _, pr := range probes {
+			res, perr := lc.decodeFlow(wire.ExactIP(pr.slot.Addr), pr.msg.Bytes())
+			if perr == nil && !res.Nil && len(res.Recs) > 0 {
+				_, _, perr = res.marshal()
+			}
+			if perr != nil {
+				return v, "panic", fmt.Errorf("corruption %s(%d,%d,%s): decoding data of exporter %x id %d against the loaded cache: %v", m.Kind, m.A, m.B, m.V, []byte(pr.slot.Addr), pr.slot.ID, perr)
+			}
 		}
 		if removalOnly[m.Kind] {
 			if e := checkNothingInvented(lc, probes, false); e != nil {
